@@ -237,7 +237,7 @@ func c05r4(c *an.Ctx) {
 						continue
 					}
 					for _, v := range returnedValues(ret, 0) {
-						if v == errv {
+						if v == errv || carriesError(v, errv, 0) {
 							okErr = true
 						}
 					}
@@ -454,6 +454,70 @@ func c05r8(c *an.Ctx) {
 		})
 	}
 	c.Floor("accesses of Reader.rerr", 1, nAcc)
+	// whatever else read() consults to decide that a saved error is due (a state word beside the error) is private
+	// to read() as well: written anywhere else, the deferral can be forgotten or invented
+	readerT := must(c.P.Named("drpcwire", "Reader"))
+	flags := map[*types.Var]bool{}
+	an.Instrs(rd, func(in ssa.Instruction) {
+		br, ok := in.(*ssa.If)
+		if !ok {
+			return
+		}
+		// the test decides a way out that hands back the saved error
+		decides := false
+		for _, ret := range an.Returns(rd) {
+			for _, v := range returnedValues(ret, 1) {
+				if v != nil && isLoadOfField(v, rerr) && (br.Block().Dominates(ret.Block()) || br.Block() == ret.Block()) && ret.Block() != br.Block() {
+					for _, sc := range br.Block().Succs {
+						if sc == ret.Block() || sc.Dominates(ret.Block()) {
+							decides = true
+						}
+					}
+				}
+			}
+		}
+		if !decides {
+			return
+		}
+		var scan func(v ssa.Value, depth int)
+		scan = func(v ssa.Value, depth int) {
+			if depth > 4 {
+				return
+			}
+			switch x := v.(type) {
+			case *ssa.BinOp:
+				scan(x.X, depth+1)
+				scan(x.Y, depth+1)
+			case *ssa.UnOp:
+				if fa, isFA := x.X.(*ssa.FieldAddr); isFA {
+					if fv := an.PathOf(fa).Last(); fv != nil {
+						if pt, isP := fa.X.Type().Underlying().(*types.Pointer); isP && types.Identical(pt.Elem(), readerT) {
+							flags[fv.Origin()] = true
+						}
+					}
+				}
+				scan(x.X, depth+1)
+			case *ssa.Convert:
+				scan(x.X, depth+1)
+			}
+		}
+		scan(br.Cond, 0)
+	})
+	delete(flags, rerr.Origin())
+	for f := range flags {
+		for _, fn := range must(c.P.SourceFuncs("drpcwire")) {
+			if fn == rd {
+				continue
+			}
+			for _, st := range fieldStores(fn, f) {
+				if isFreshObject(an.PathOf(st.Addr).Root) {
+					continue
+				}
+				c.Bad(fmt.Sprintf("%s | writes Reader.%s", an.ShortFunc(fn), f.Name()), c.At(st),
+					"Reader.read decides on this field whether a saved read error is due, and it is written outside Reader.read: the error that arrived together with data can be lost (or reported before the data)")
+			}
+		}
+	}
 }
 
 // constLoopBound finds a loop `for i := c0; i < K; i++` in fn.
@@ -555,9 +619,16 @@ func c05r9(c *an.Ctx) {
 					return nil
 				},
 				Branch: func(st string, br *ssa.If, idx int) (string, bool) {
-					if x, trueNonNil, ok := nilTestOf(br.Cond); ok && an.Resolve(x) == errv {
+					if x, trueNonNil, ok := nilTestOf(br.Cond); ok && (an.Resolve(x) == errv || carriesError(x, errv, 0)) {
+						exact := an.Unwrap(x) == errv || an.Resolve(x) == errv
 						if (idx == 0) == trueNonNil {
+							if exact && hasTag(st, "ok") {
+								return st, false // the write error itself was already seen nil on this path
+							}
 							return addTag(st, "err"), true
+						}
+						if hasTag(st, "err") {
+							return st, false // whatever carries a non-nil write error is not nil
 						}
 						return addTag(st, "ok"), true
 					}
